@@ -634,7 +634,7 @@ def gen_dsl(rng):
             prog = dsl.gen_special(rng)
         stmts = []
         for s in prog["stmts"]:
-            e = _scrub(rng, prog, s[2])
+            e = _scrub(rng, prog, dsl.expand(s[2]))      # ["let", ...] written out: sharing of an expression object does not matter here
             if e is None or (s[1][0] in dsl.VIEWS and s[1][1] in PTR_REGS):
                 break
             stmts.append(["set", s[1], e])
